@@ -53,7 +53,7 @@ claimed = {
                   "from an arbitrary stack of depth <= 4 against a reference step function (verdict and resulting stack); the BIP342 OP_SUCCESSx set; control flow (every script of up to 3 (4) opcodes over a 15-opcode alphabet with IF/NOTIF/ELSE/ENDIF, MINIMALIF, opcodes that fail unexecuted); "
                   "OP_CHECKSIG(VERIFY) and OP_CHECKMULTISIG(VERIFY) against interpreter.cpp with the ECDSA verdict an uninterpreted function (encoding gates, FindAndDelete/CONST_SCRIPTCODE, NULLFAIL, NULLDUMMY, operand limits, the key/signature matching walk); "
                   "VerifyTxScript orchestration (P2SH, native and nested witness programs, CLEANSTACK, SIGPUSHONLY, unexpected witness) and the witness-program dispatch (v0 key/script hash, taproot key/script path, annex, control-block sizes, leaf versions, upgradable versions) against VerifyScript / VerifyWitnessProgram.",
-             ref="6/C01", note=NOTE + "The reference predicates and interpreters (ref_* in harness/lib/script) are hand transcriptions of Core's and are part of the trusted base. Where a harness uses uninterpreted verdicts (signature checks, witness script execution) it decides the composition around them, not the verdicts. The resource limits (201 opcodes, 1000 stack items, 520-byte pushes, 10000-byte scripts) are a concrete case split around each boundary. Outside: tapscript execution (OP_CHECKSIGADD, validation weight), scripts longer than the bounds. "),
+             ref="6/C01", note=NOTE + "The reference predicates and interpreters (ref_* in harness/lib/script) are hand transcriptions of Core's and are part of the trusted base. Where a harness uses uninterpreted verdicts (signature checks, witness script execution) it decides the composition around them, not the verdicts. The resource limits (201 opcodes, 1000 stack items, 520-byte pushes, 10000-byte scripts) are a concrete case split around each boundary. Tapscript execution (OP_SUCCESS, MINIMALIF, CHECKSIG/CHECKSIGADD with key types and validation weight) is decided for scripts of up to 2 (3) items with the Schnorr verdict uninterpreted. Outside: scripts longer than the bounds. "),
  "C15": dict(text="Bounded model checking of address coding: Base58 encode->decode for payloads of 0..3 and 25 bytes and decode->encode / alphabet refusal for strings of 1..2 characters; segwit address coding: encode->decode identity for every witness version / legal program length / program; refusal of illegal destinations; "
                   "decode->re-encode identity and BIP173/BIP350 rule conformance for every string of the tier's lengths, the v0 program-length rule at 42/44/46 characters (checksum reasoning by GF(2) elimination in the engine, everything else by z3).",
              ref="6/C15", note=NOTE + "The BCH checksum constraint is kept in solved form by the engine's GF(2) elimination; models are still produced and checked by the solver. "),
